@@ -21,6 +21,9 @@ CHECKS = {
  "C07": ("history invariant monitor: generated mutation histories on data-class instances with invariants I1-I7 evaluated from the driver at every quiescent point over full snapshots of the mapping, attribute and __dict__ views",
          "After every setattr/delattr/__setitem__/__delitem__/update/pop/popitem/setdefault/clear/|=/copy step: present fields conform (no unparsed data, no sentinel), required present, immutable unchanged (Field(immutable) and Final), views agree, dependent properties recomputed, a failed single-key operation changed nothing, copy and original independent.",
          "Invariants are the harness's (check_invariants in vmon/props/c07.py); icontract invariants are not used because they do not fire for dict methods Schema inherits. Six defects found and repaired in /repo.", "§4 C07"),
+ "C08": ("binding monitor: generated signatures (source text) whose body records its locals; expected binding from inspect.Signature.bind + defaults + expected conversions; generator traces of decorated vs raw function under the same next/send script",
+         "Every bindable call must give the body exactly Python's binding with converted annotated values, for positional / keyword / alias spellings, *args / **kwargs, defaults, methods / classmethods / staticmethods in both decorator orders, coroutines; a failing parameter must raise ParseError before the body runs; results conform to the return annotation; sync and async generators (eager / lazy) yield, receive and return what the raw generator does, converted.",
+         "Trusted: inspect.Signature.bind. Private (underscore) parameters follow the documented rules (not parsed, not passable by keyword). Two defects repaired in /repo (default slide past a private positional-only parameter; async generator asend), one known finding (staticmethod heuristic).", "§4 C08"),
  "C09": ("combinator semantics monitor: argument-relative oracle (each argument evaluated alone on the original input, per union stage), all permutations of ^, structural construction algebra",
          "For generated combinator nodes over disagreeing argument types: | accepts <=> some argument accepts in one of the three stages and returns an accepting argument's output (exact-type inputs returned unchanged); ^ accepts <=> exactly one argument accepts, identically for every argument order; ~ accepts <=> argument rejects, returning the input object; & equals the left fold. ~~T, duplicate/Any absorption, same-kind flattening and operator order with data classes are checked on the built types.",
          "Argument verdicts come from the library itself on fresh contexts (relation between runs). One known finding (^ exact-type shortcut). One-shot inputs skipped.", "§4 C09"),
